@@ -3,40 +3,66 @@ package main
 import (
 	"encoding/json"
 	"fmt"
+	"go/types"
 	"os"
 	"path/filepath"
 	"sort"
+	"strings"
 	"sync"
 
 	"golang.org/x/tools/go/ssa"
 )
 
-// Alpha-normalisation of local variable names.
+// Name normalisation (alpha-renaming).
 //
-// Rules name local variables in their patterns ("local:scionL.DstIA"). A local
-// variable's name carries no meaning, so renaming one must not change any
-// verdict. localnames.json (committed, generated with -gen-localnames on the
-// tree the rules were written against) records, per function, the named locals
-// in order of declaration with their types. When a function of the analysed
-// tree has a local whose (name, type) is not in the record, it is identified
-// with the first not yet identified recorded local of the same type, and the
-// symbolic rendering uses the RECORDED name. Locals whose (name, type) is
-// recorded keep their identity, so on the reference tree the map is the
-// identity. The table is an identity map for variables, not a frozen copy of
-// the code: nothing is compared with it.
+// Rules name local variables, functions and struct fields in their patterns
+// ("local:scionL.DstIA", "(*router.scionPacketProcessor).verifyCurrentMAC",
+// "recv.cachedMac"). A name carries no meaning, so renaming must not change a
+// verdict. refnames.json (committed, generated with -gen-refnames on the tree
+// the rules were written against) records
+//
+//	locals: per function, the named local slots in order with their types;
+//	funcs:  per declared module function, its signature (types only);
+//	fields: per named struct type, the field names in order with their types.
+//
+// On the analysed tree a local / function / field whose name is NOT in the
+// record is identified with a recorded one that no longer exists, when that is
+// unambiguous: same function and type for locals (in declaration order); same
+// package, receiver and signature for functions (exactly one candidate on both
+// sides); same struct and field type for fields (exactly one candidate on both
+// sides). The symbolic rendering, function lookup and field rendering then use
+// the RECORDED name. Names that are recorded keep their identity, so on the
+// reference tree all maps are the identity. The table identifies names only;
+// no code is compared with it, and a function that took over a recorded name
+// still has to satisfy every obligation stated for that name.
 
 type localRefEntry struct {
 	Name string `json:"n"`
 	Type string `json:"t"`
 }
 
+type funcRefEntry struct {
+	Sig string `json:"s"`
+	Ord int    `json:"o"` // declaration order (package, file, offset)
+}
+
+type refNames struct {
+	Locals map[string][]localRefEntry `json:"locals"`
+	Funcs  map[string]funcRefEntry    `json:"funcs"`
+	Fields map[string][]localRefEntry `json:"fields"`
+}
+
 var (
-	localRef      map[string][]localRefEntry
+	refTab        refNames
 	localRefOnce  sync.Once
 	localCanonMu  sync.Mutex
 	localCanon    = map[*ssa.Function]map[*ssa.Alloc]string{}
-	localRenamed  = map[string]string{} // "fn: new -> recorded", for the evidence
+	renamedNotes  = map[string]bool{} // what was identified with what, for the evidence
 	verifDirGuess = "/verif"
+
+	funcNewToOld = map[string]string{}
+	funcOldToNew = map[string]string{}
+	fieldCanon   = map[string]map[string]string{} // struct key -> current name -> recorded name
 )
 
 var genericAllocNames = map[string]bool{
@@ -45,14 +71,14 @@ var genericAllocNames = map[string]bool{
 	"selectcase": true, "append": true,
 }
 
-func loadLocalRef() {
+func loadRefNames() {
 	localRefOnce.Do(func() {
-		localRef = map[string][]localRefEntry{}
-		b, err := os.ReadFile(filepath.Join(verifDirGuess, "checker", "localnames.json"))
+		refTab = refNames{Locals: map[string][]localRefEntry{}, Funcs: map[string]funcRefEntry{}, Fields: map[string][]localRefEntry{}}
+		b, err := os.ReadFile(filepath.Join(verifDirGuess, "checker", "refnames.json"))
 		if err != nil {
 			return
 		}
-		_ = json.Unmarshal(b, &localRef)
+		_ = json.Unmarshal(b, &refTab)
 	})
 }
 
@@ -87,14 +113,14 @@ func canonLocalName(a *ssa.Alloc) string {
 	if fn == nil {
 		return a.Comment
 	}
-	loadLocalRef()
+	loadRefNames()
 	localCanonMu.Lock()
 	defer localCanonMu.Unlock()
 	m, ok := localCanon[fn]
 	if !ok {
 		m = map[*ssa.Alloc]string{}
 		localCanon[fn] = m
-		ref := localRef[FuncName(fn)]
+		ref := refTab.Locals[FuncName(fn)]
 		if len(ref) > 0 {
 			used := make([]bool, len(ref))
 			var rest []*ssa.Alloc
@@ -119,7 +145,7 @@ func canonLocalName(a *ssa.Alloc) string {
 					if !used[j] && r.Type == allocType(x) {
 						used[j] = true
 						m[x] = r.Name
-						localRenamed[FuncName(fn)+": "+x.Comment+" -> "+r.Name] = allocType(x)
+						renamedNotes["local "+FuncName(fn)+": "+x.Comment+" = "+r.Name] = true
 						break
 					}
 				}
@@ -132,8 +158,222 @@ func canonLocalName(a *ssa.Alloc) string {
 	return a.Comment
 }
 
-// genLocalNames writes the reference table for every function the rules can see.
-func genLocalNames(verif string) int {
+// sigKey renders a signature by its parameter and result types only.
+func sigKey(sig *types.Signature) string {
+	var ps, rs []string
+	for i := 0; i < sig.Params().Len(); i++ {
+		ps = append(ps, typeShort(sig.Params().At(i).Type()))
+	}
+	for i := 0; i < sig.Results().Len(); i++ {
+		rs = append(rs, typeShort(sig.Results().At(i).Type()))
+	}
+	v := ""
+	if sig.Variadic() {
+		v = "..."
+	}
+	return "(" + strings.Join(ps, ",") + v + ")(" + strings.Join(rs, ",") + ")"
+}
+
+func rawFuncName(fn *ssa.Function) string {
+	return strings.ReplaceAll(fn.String(), modPath+"/", "")
+}
+
+// funcGroup is the part of a function name that a rename cannot change here:
+// package and receiver.
+func funcGroup(name string) string {
+	if strings.HasPrefix(name, "(") {
+		if end := strings.Index(name, ")."); end >= 0 {
+			return name[:end+1]
+		}
+	}
+	if pkg, _, ok := splitQual(name); ok {
+		return pkg
+	}
+	return name
+}
+
+func declaredModuleFuncs(prog *Program) map[string]funcRefEntry {
+	out := map[string]funcRefEntry{}
+	type posd struct {
+		name, where string
+		off        int
+	}
+	var all []posd
+	for fn := range prog.AllFuncs() {
+		if fn.Blocks == nil || fn.Parent() != nil || fn.Synthetic != "" || !inModule(fn) || fn.Signature == nil {
+			continue
+		}
+		if len(fn.TypeArgs()) > 0 {
+			continue
+		}
+		p := prog.Fset.Position(fn.Pos())
+		all = append(all, posd{rawFuncName(fn), p.Filename, p.Offset})
+		out[rawFuncName(fn)] = funcRefEntry{Sig: sigKey(fn.Signature)}
+	}
+	sort.Slice(all, func(i, j int) bool {
+		if all[i].where != all[j].where {
+			return all[i].where < all[j].where
+		}
+		return all[i].off < all[j].off
+	})
+	for i, a := range all {
+		e := out[a.name]
+		e.Ord = i
+		out[a.name] = e
+	}
+	return out
+}
+
+func structTables(prog *Program) map[string][]localRefEntry {
+	out := map[string][]localRefEntry{}
+	for _, p := range prog.Pkgs {
+		if p.Types == nil {
+			continue
+		}
+		sc := p.Types.Scope()
+		for _, n := range sc.Names() {
+			tn, ok := sc.Lookup(n).(*types.TypeName)
+			if !ok || tn.IsAlias() {
+				continue
+			}
+			st, ok := tn.Type().Underlying().(*types.Struct)
+			if !ok {
+				continue
+			}
+			var es []localRefEntry
+			for i := 0; i < st.NumFields(); i++ {
+				es = append(es, localRefEntry{Name: st.Field(i).Name(), Type: typeShort(st.Field(i).Type())})
+			}
+			out[typeShort(tn.Type())] = es
+		}
+	}
+	return out
+}
+
+// applyRefNames computes the function and field identifications for a loaded program.
+func applyRefNames(prog *Program) {
+	loadRefNames()
+	localCanonMu.Lock()
+	defer localCanonMu.Unlock()
+	if len(refTab.Funcs) > 0 {
+		cur := declaredModuleFuncs(prog)
+		pkgLoaded := map[string]bool{}
+		for name := range cur {
+			pkgLoaded[funcGroup(name)] = true
+		}
+		newBy := map[string][]string{} // group|sig -> new names
+		goneBy := map[string][]string{}
+		for name, e := range cur {
+			if _, ok := refTab.Funcs[name]; !ok {
+				k := funcGroup(name) + "|" + e.Sig
+				newBy[k] = append(newBy[k], name)
+			}
+		}
+		for name, e := range refTab.Funcs {
+			if _, ok := cur[name]; !ok && pkgLoaded[funcGroup(name)] {
+				k := funcGroup(name) + "|" + e.Sig
+				goneBy[k] = append(goneBy[k], name)
+			}
+		}
+		for k, ns := range newBy {
+			gs := goneBy[k]
+			// as many new names as vanished ones with this receiver and signature:
+			// identified in declaration order (a rename does not move the function)
+			if len(ns) == len(gs) {
+				sort.Slice(ns, func(i, j int) bool { return cur[ns[i]].Ord < cur[ns[j]].Ord })
+				sort.Slice(gs, func(i, j int) bool { return refTab.Funcs[gs[i]].Ord < refTab.Funcs[gs[j]].Ord })
+				for i := range ns {
+					funcNewToOld[ns[i]] = gs[i]
+					funcOldToNew[gs[i]] = ns[i]
+					renamedNotes["func "+ns[i]+" = "+gs[i]] = true
+				}
+			}
+		}
+	}
+	if len(refTab.Fields) > 0 {
+		for key, curFields := range structTables(prog) {
+			ref, ok := refTab.Fields[key]
+			if !ok {
+				continue
+			}
+			refHas, curHas := map[string]bool{}, map[string]bool{}
+			for _, r := range ref {
+				refHas[r.Name] = true
+			}
+			for _, c := range curFields {
+				curHas[c.Name] = true
+			}
+			newBy, goneBy := map[string][]string{}, map[string][]string{}
+			for _, c := range curFields {
+				if !refHas[c.Name] {
+					newBy[c.Type] = append(newBy[c.Type], c.Name)
+				}
+			}
+			for _, r := range ref {
+				if !curHas[r.Name] {
+					goneBy[r.Type] = append(goneBy[r.Type], r.Name)
+				}
+			}
+			for t, ns := range newBy {
+				gs := goneBy[t]
+				// several renamed fields of one type: identify in declaration order
+				if len(ns) == len(gs) {
+					for i := range ns {
+						if fieldCanon[key] == nil {
+							fieldCanon[key] = map[string]string{}
+						}
+						fieldCanon[key][ns[i]] = gs[i]
+						renamedNotes["field "+key+"."+ns[i]+" = "+gs[i]] = true
+					}
+				}
+			}
+		}
+	}
+}
+
+// canonFieldName maps the name of a field of the (named) struct type t.
+func canonFieldName(t types.Type, name string) string {
+	if len(fieldCanon) == 0 {
+		return name
+	}
+	if p, ok := t.Underlying().(*types.Pointer); ok {
+		t = p.Elem()
+	}
+	if m, ok := fieldCanon[typeShort(t)]; ok {
+		if o, ok := m[name]; ok {
+			return o
+		}
+	}
+	return name
+}
+
+// canonFuncString maps a rendered function name (and the closures below it).
+func canonFuncString(s string) string {
+	if len(funcNewToOld) == 0 {
+		return s
+	}
+	if o, ok := funcNewToOld[s]; ok {
+		return o
+	}
+	if i := strings.Index(s, "$"); i > 0 {
+		if o, ok := funcNewToOld[s[:i]]; ok {
+			return o + s[i:]
+		}
+	}
+	return s
+}
+
+func renameNotes() []string {
+	var out []string
+	for k := range renamedNotes {
+		out = append(out, k)
+	}
+	sort.Strings(out)
+	return out
+}
+
+// genRefNames writes the reference table for everything the rules can see.
+func genRefNames(verif string) int {
 	set := map[string]bool{}
 	for _, r := range registry {
 		for _, p := range r.Roots {
@@ -145,12 +385,13 @@ func genLocalNames(verif string) int {
 		roots = append(roots, p)
 	}
 	sort.Strings(roots)
+	skipRefNames = true
 	prog, err := Load(roots, nil, nil)
 	if err != nil {
 		fmt.Printf("load failed: %v\n", err)
 		return 1
 	}
-	out := map[string][]localRefEntry{}
+	out := refNames{Locals: map[string][]localRefEntry{}, Funcs: declaredModuleFuncs(prog), Fields: structTables(prog)}
 	for fn := range prog.AllFuncs() {
 		if fn.Blocks == nil || !inModule(fn) {
 			continue
@@ -163,7 +404,7 @@ func genLocalNames(verif string) int {
 			es = append(es, localRefEntry{Name: a.Comment, Type: allocType(a)})
 		}
 		if len(es) > 0 {
-			out[FuncName(fn)] = es
+			out.Locals[rawFuncName(fn)] = es
 		}
 	}
 	b, err := json.Marshal(out)
@@ -171,10 +412,13 @@ func genLocalNames(verif string) int {
 		fmt.Println(err)
 		return 1
 	}
-	if err := os.WriteFile(filepath.Join(verif, "checker", "localnames.json"), b, 0o644); err != nil {
+	if err := os.WriteFile(filepath.Join(verif, "checker", "refnames.json"), b, 0o644); err != nil {
 		fmt.Println(err)
 		return 1
 	}
-	fmt.Printf("localnames.json: %d functions with named locals (%d bytes)\n", len(out), len(b))
+	fmt.Printf("refnames.json: %d functions with named locals, %d functions, %d struct types (%d bytes)\n",
+		len(out.Locals), len(out.Funcs), len(out.Fields), len(b))
 	return 0
 }
+
+var skipRefNames bool
